@@ -11,13 +11,13 @@ from __future__ import annotations
 
 import numpy as np
 
-from .. import gens, rt, sel
+from .. import forms, gens, rt, sel
 from ..common import Skip, brief
 
 ID = "C02"
 CASES = {"quick": 8000, "thorough": 80000}
 FLOOR = {"quick": 6000, "thorough": 60000}
-FLOOR_COUNTERS = {"quick": {"warm_started_fits": 500, "estimators_with_a_past": 600, "small_unit_fits": 400, "picks_judged": 18000, "ties_at_pick": 500}, "thorough": {"warm_started_fits": 6000, "estimators_with_a_past": 7000, "small_unit_fits": 4000, "picks_judged": 300000, "ties_at_pick": 6000}}
+FLOOR_COUNTERS = {"quick": {"configured_not_by_constructor": 3000, "non_default_containers": 3000, "integer_typed_inputs": 500, "warm_started_fits": 500, "estimators_with_a_past": 600, "small_unit_fits": 400, "picks_judged": 18000, "ties_at_pick": 500}, "thorough": {"configured_not_by_constructor": 30000, "non_default_containers": 30000, "integer_typed_inputs": 5000, "warm_started_fits": 6000, "estimators_with_a_past": 7000, "small_unit_fits": 4000, "picks_judged": 300000, "ties_at_pick": 6000}}
 RULE = (
     "case = (FPS | PCov-FPS) x (feature | sample), matrix family (gauss, lattice with exact ties, clustered, duplicated, "
     "scaled, low-rank ...), mixing in {0,.1,.5,.9,.999}, initialisation int/'random'/list/ndarray, n_to_select in [len(init), N]; "
@@ -25,7 +25,7 @@ RULE = (
     "exhausted. non-trivial = at least 2 judged picks; distinct by hash of spec+data."
 )
 ASSUMPTIONS = [
-    "tolerance 1e-11 x max(|D|, largest squared norm): the code forms d = |a|^2+|b|^2-2ab, so rounding (~1e-15) scales with the norms",
+    "tolerance 1e-11 x max(|D|, largest squared norm): the code forms d = |a|^2+|b|^2-2ab, so rounding (~1e-15) scales with the norms; feature PCov-FPS: at least 100 eps cond(kept spectrum of X^T X)",
     "feature PCov-FPS: cases whose X^T X has an eigenvalue near the code's absolute 1e-12 cut are skipped (formula not determined to rounding there)",
     "steps after numerical exhaustion of the candidates are not judged here (known finding K2 of C01)",
     "the oracle's Gram/covariance algebra (numpy matmul, eigh) is trusted",
@@ -78,6 +78,13 @@ def gen(rng, tier, index):
     decoy = None
     if rng.random() < 0.2:  # the estimator object was fitted before, on other data of the same shape
         decoy = {"X": rng.normal(size=X.shape) * unit * 3.0, "y": None if y is None else rng.normal(size=len(X))}
+    if rng.random() < 0.12 and float(np.abs(X).max()) > 0:  # whole-number data (counts, grid indices) with an integer dtype
+        X = np.round(X / float(np.abs(X).max()) * 40.0)
+        spec["xint"] = gens.pick(rng, ("int64", "int32"))
+    # the same configuration and the same numbers through another public route / container
+    spec["how"] = gens.pick(rng, forms.CONFIGURE)
+    spec["xform"] = gens.pick(rng, forms.PRESENT)
+    spec["yform"] = gens.pick(rng, forms.PRESENT)
     return {"spec": spec, "X": X, "y": y, "kind": kind, "unit": unit, "warm_at": warm_at, "decoy": decoy}
 
 
@@ -101,6 +108,12 @@ def _run_one(spec, X, y, j, label, warm_at=None, decoy=None):
 
 def run(case, j):
     spec, X, y = case["spec"], case["X"], case["y"]
+    if spec.get("how", "ctor") != "ctor":
+        j.note("configured_not_by_constructor")
+    if spec.get("xform", "C") != "C":
+        j.note("non_default_containers")
+    if spec.get("xint"):
+        j.note("integer_typed_inputs")
     axis = sel.axis_of(spec)
     N = X.shape[axis]
     kw = spec["kw"]
@@ -116,6 +129,14 @@ def run(case, j):
     if spec["cls"] == "PCovFPS":
         scale = max(scale, float(np.abs(D).max()))
     tol = 1e-11 * scale  # |a|^2 + |b|^2 - 2ab carries ~1e-15 x scale of rounding
+    if spec["cls"] == "PCovFPS" and axis == 1:
+        # the feature-space metric goes through (X^T X)^(-1/2) restricted to the kept eigenvalues: its rounding error is
+        # eps x their condition number (visible as soon as library and oracle multiply the same numbers in different
+        # containers and hence in a different order)
+        w = np.linalg.eigvalsh(np.asarray(X, float).T @ np.asarray(X, float))
+        kept = w[w > 1e-12]
+        if len(kept):
+            tol = max(tol, 100 * np.finfo(float).eps * float(kept.max() / kept.min()) * scale)
     seq = [e["idx"] for e in tr.commits()]
     picks = tr.picks()
     idx = [int(v) for v in est.selected_idx_]
